@@ -280,3 +280,33 @@ func Mkdir(path string, perm os.FileMode) error {
 	madeDirs[filepath.Clean(path)] = true
 	return nil
 }
+
+// crypto/rand: the operating system's randomness is a seeded stream here
+// (a tree whose output depends on it differs between scenarios, replayably).
+
+type cryptoReader struct{}
+
+func (cryptoReader) Read(b []byte) (int, error) {
+	r := rnd()
+	for i := range b {
+		b[i] = byte(r.next() >> 56)
+	}
+	return len(b), nil
+}
+
+// CryptoReader replaces crypto/rand.Reader.
+var CryptoReader io.Reader = cryptoReader{}
+
+// CryptoRead replaces crypto/rand.Read.
+func CryptoRead(b []byte) (int, error) { return CryptoReader.Read(b) }
+
+// CryptoText replaces crypto/rand.Text.
+func CryptoText() string {
+	const alphabet = "ABCDEFGHIJKLMNOPQRSTUVWXYZ234567"
+	b := make([]byte, 26)
+	r := rnd()
+	for i := range b {
+		b[i] = alphabet[r.next()>>59]
+	}
+	return string(b)
+}
